@@ -17,7 +17,7 @@ from vlib.core import Collector, Failure, hyp_campaign
 ID = "C19"
 LEVEL = "exploration"
 RULE = ("2-4 threads each run a short generated program of parse / serialize / decode operations (C14's operation pool: "
-        "first use of a class on a cold context, xsi:type lookups, parsing and JSON decoding without a target class, wildcard "
+        "first use of a class on a cold context, metadata built with a caller-supplied python namespace (SerializerConfig.globalns), xsi:type lookups, parsing and JSON decoding without a target class, wildcard "
         "name matching, importing a new model module) against ONE shared XmlContext and shared parser/serializer instances, "
         "cold or warmed up. A cooperative scheduler serialises the threads and switches between them only at yield points = "
         "every executed line of xsdata/formats/dataclass/context.py that reads or writes the shared caches, every line of the methods of models/elements.py and parsers/nodes/union.py, of XmlVar.match_namespace / the find_* lookups of "
@@ -243,7 +243,7 @@ def execute(case, col):
 
 
 # operations that exercise lazily built shared state
-HOT = [i for i, o in enumerate(c14.OPS) if o[1] in ("parse", "json", "dict", "serialize", "import", "tree")]
+HOT = [i for i, o in enumerate(c14.OPS) if o[1] in ("parse", "json", "dict", "serialize", "serialize-local", "encode-local", "import", "tree")]
 
 
 @st.composite
@@ -290,6 +290,10 @@ def pairs():
         # cold metadata of one class built by two serializing threads at once
         ([P("serialize Pick with prefix map")], [P("serialize Pick with prefix map")], []),
         ([P("serialize Sched 1")], [P("serialize Sched 2")], []),
+        # metadata built with a caller-supplied python namespace (SerializerConfig.globalns) next to builds without one
+        ([P("serialize local model through globalns")], [P("parse a1 as A (lxml)")], []),
+        ([P("serialize local model through globalns")], [P("serialize B")], []),
+        ([P("json encode local model through globalns")], [P("json decode ja as A")], []),
     ]
 
 
